@@ -307,6 +307,29 @@ EvalNode(n, env, fuel) ==
          LET v == Lookup(env.vars, n.x) IN
          IF v.k = "ref" THEN EvalSeq(v.a, 1, [v.env EXCEPT !.at = env.at, !.queue = env.queue], fuel) ELSE Ok(<<>>)
 
+(* ---------------- JS / CSS dependencies (C04) ---------------------------- *)
+\* comps[c].assets = [js, css : inline code token ("" / blank = none), mjs, mcss : Media file
+\* sequences, base : index of the class it subclasses (0: none), ext : Media.extend].
+\* Deps(P, insts): what the final document must deliver for the instances rendered into it.
+RECURSIVE Dedupe(_, _)
+Dedupe(s, i) == IF i > Len(s) THEN <<>>
+                ELSE (IF \E j \in 1..(i - 1) : s[j] = s[i] THEN <<>> ELSE <<s[i]>>) \o Dedupe(s, i + 1)
+RenderedClasses(insts) == Dedupe([k \in 1..Len(insts) |-> insts[k][2]], 1)     \* first-appearance order
+NonBlank(code) == code # "" /\ code # " "
+RECURSIVE MediaFiles(_, _, _)
+MediaFiles(P, c, t) ==
+  LET a == P.comps[c].assets
+      own == Range(IF t = "js" THEN a.mjs ELSE a.mcss) IN
+  own \cup (IF a.base # 0 /\ a.ext THEN MediaFiles(P, a.base, t) ELSE {})
+Deps(P, insts) ==
+  LET rc == RenderedClasses(insts)
+      js == SelectSeq(rc, LAMBDA c : NonBlank(P.comps[c].assets.js))
+      css == SelectSeq(rc, LAMBDA c : NonBlank(P.comps[c].assets.css)) IN
+  [ijs  |-> [k \in 1..Len(js) |-> P.comps[js[k]].assets.js],          \* inline JS, once, in order
+   icss |-> [k \in 1..Len(css) |-> P.comps[css[k]].assets.css],
+   mjs  |-> UNION {MediaFiles(P, c, "js") : c \in Range(rc)},          \* Media files, each once
+   mcss |-> UNION {MediaFiles(P, c, "css") : c \in Range(rc)}]
+
 Fuel == 40
 Run(P) ==
   EvalSeq(P.page, 1,
